@@ -224,6 +224,20 @@ func buildErrPlan(firstIdx int) []errPlan {
 							p.SameDir = &w
 						}
 						p.FreshDir = pick("r")
+						// successive versions overlap (same name same content /
+						// different content / dropped / added), see carryOver
+						var chain []*writeSpec
+						for j := range p.Pre {
+							chain = append(chain, &p.Pre[j])
+						}
+						chain = append(chain, &p.Faulted)
+						if p.Pinned2 != nil {
+							chain = append(chain, p.Pinned2)
+						}
+						if p.SameDir != nil {
+							chain = append(chain, p.SameDir)
+						}
+						carryOver(append(chain, &p.FreshDir), mon.NewRNG("c18-errfault-carry", idx))
 						out = append(out, p)
 					}
 				}
@@ -324,6 +338,18 @@ func runErrFault(idx int, p errPlan, root string, pinOK bool) {
 	dir.VerifHook.Store(&hook)
 	defer dir.VerifHook.Store(nil)
 
+	{
+		chain := append(append([]writeSpec{}, p.Pre...), p.Faulted)
+		if p.Pinned2 != nil {
+			chain = append(chain, *p.Pinned2)
+		}
+		if p.SameDir != nil {
+			chain = append(chain, *p.SameDir)
+		}
+		for j := 1; j < len(chain); j++ {
+			countOverlap("errfault.successive-writes", chain[j-1], chain[j])
+		}
+	}
 	d := dir.New(dir.Options{Log: quietLog(), Target: target})
 	write := func(dd *dir.Dir, label string, w writeSpec, files map[string][]byte, countable bool) (error, bool) {
 		cur = label
